@@ -26,3 +26,15 @@ Theorem C08_no_deadlock_no_unbounded_recursion :
     ~ In BHang (model_trace r stored local es) /\ ~ In BFuel (model_trace r stored local es).
 Proof. exact no_hang. Qed.
 Print Assumptions C08_no_deadlock_no_unbounded_recursion.
+
+(* the function bin/check evaluates on the implementation's observations (ConnCheck.check_C08:
+   model = implementation?, and the monitor read off the observations themselves - states from
+   the hook snapshots, the stored SHIP id from the id reports) returns no failure code on the
+   model's own observations, for every role, ids and event list: what is demanded of the
+   implementation is exactly what is proved of the model *)
+From Ship Require Import ConnCheck ConnImpl.
+Theorem C08_checker_accepts_every_model_run :
+  forall (r : role) (stored local : bytes) (es : list eventx),
+    check_C08 (model_case r stored local es) = [].
+Proof. intros r s l es. pose proof (checkers_accept_model r s l es) as H. cbv zeta in H. tauto. Qed.
+Print Assumptions C08_checker_accepts_every_model_run.
